@@ -236,5 +236,33 @@ def r16_5(ctx):
     (ctx.ok(construct, f.loc(), nontrivial=False) if ok else ctx.bad(construct, "missing_syms no longer forces a save", f.loc()))
 
 
+def r16_6(ctx):
+    """R16.6 (a) unknown assignments of the main file keep the session dirty until it is saved: Kconfig.missing_syms is
+    cleared only by a replacing load (a merge-load of another file must not empty it); (b) needs_save() looks at every
+    symbol that has a baseline, whether or not an entry would currently be written; (c) the save is skipped only when the
+    file is identical (whole-file comparison, C13 R13.1b)."""
+    repo = ctx.repo
+    f = repo.func(f"{CORE}:Kconfig._load_config")
+    fl = Flow(f.node).run()
+    st = [n for n in ast.walk(f.node) if isinstance(n, ast.Assign) and ast.unparse(n.targets[0]) == "self.missing_syms"]
+    construct = "Kconfig._load_config/missing_syms cleared only by a replacing load"
+    if not st:
+        ctx.bad(construct, "missing_syms is never reset", f.loc())
+    else:
+        bad = [n for n in st if ("replace", True) not in (fl.guards_at(n) or set())]
+        (ctx.bad(construct, "the list of unknown assignments is emptied by a merge-load (menuconfig Load): needs_save() turns false although the main file still "
+                 "contains the unknown entry that a save would drop", f.loc(bad[0])) if bad else ctx.ok(construct, f.loc(st[0])))
+    ns = repo.func(f"{MODEL}:MenuConfigState.needs_save")
+    res = Resolver(ns.node)
+    fl2 = Flow(ns.node, resolver=res).run()
+    lp = [n for n in ns.node.body if isinstance(n, ast.For)][0]
+    conts = [n for n in ast.walk(lp) if isinstance(n, ast.Continue)]
+    construct = "MenuConfigState.needs_save/no symbol with a baseline is skipped"
+    (ctx.bad(construct, f"a `continue` under {sorted(fl2.guards_at(conts[0]) or [])} skips symbols: a stale entry of a currently hidden option no longer makes the "
+             "session dirty", ns.loc(conts[0])) if conts else ctx.ok(construct, ns.loc(lp)))
+    from . import c13
+    c13.r13_1b(ctx)
+
+
 def rules():
-    return [("R16.1", r16_1, 2), ("R16.2", r16_2, 11), ("R16.3", r16_3, 3), ("R16.4", r16_4, 2), ("R16.5", r16_5, 6)]
+    return [("R16.1", r16_1, 2), ("R16.2", r16_2, 11), ("R16.3", r16_3, 3), ("R16.4", r16_4, 2), ("R16.5", r16_5, 6), ("R16.6", r16_6, 4)]
